@@ -77,6 +77,10 @@ class Gen(object):
                 out += [208000 + rng.randint(1, 12)] + body + ([208000] if rng.random() < self.pclose else [])
             elif allow_ops and not in204 and r < 0.90:
                 body = self.items(depth + 1, rng.randint(1, 3), allow_delayed, False, True)
+                if rng.random() < 0.3:
+                    # nested associated fields: inner 204 opened and closed inside the outer one
+                    inner = self.items(depth + 1, rng.randint(1, 2), False, False, True)
+                    body = body + [204000 + rng.randint(1, 6), 31021] + inner + [204000] + [self.elem(False)]
                 out += [204000 + rng.randint(1, 8), 31021] + body + ([204000] if rng.random() < self.pclose else [])
             elif allow_ops and r < 0.93:
                 out += [205000 + rng.randint(1, 10)]
